@@ -22,7 +22,7 @@ CHECKS["C09"] = dict(level="other", design="4/C09",
    note="Trusted: CrossHair+z3; floats as finite reals (NaN/inf outside the claim); PairsMapping stub for the Mapping initialiser. Bounds: L=5 (both tiers).")
 CHECKS["C10"] = dict(level="other", design="4/C10",
    text="Solver-decided total-function check: for every ordered pair of the four relations, every |A|,|B|<=S and every operator/predicate group, span ends are unbounded symbolic numbers; construction (pairs, generator, starts/ends, force_no_dup_check), membership, &,|,-,^ and the nine predicates equal an independent evaluation of their membership-based definitions on every path.",
-   note="Trusted: CrossHair+z3; harness reference model (20 lines). Bounds: S=2 quick (ints); thorough adds S=3 for &,|,-,^,<= and a real-number family at S=2.")
+   note="Trusted: CrossHair+z3; harness reference model (20 lines). Bounds: S=2 quick (ints); thorough adds one operand with 3 spans (other <=2) for &,|,-,^,<= and a real-number family at S=2.")
 CHECKS["C15"] = dict(level="other", design="4/C15",
    text="Solver-decided: the arrival order of serials 0..n-1 is a symbolic permutation (all n! orders are paths), drain vectors and the flush/clear position are enumerated per job; after every step the emitted prefix, waiting_for and len equal the definition for Buffer and PrintBuffer (real print() into a list-backed writer). CircularBuffer(c): symbolic number of puts, symbolic clear position, one more put/clear, symbolic probe index vs. the tail of the put history.",
    note="Trusted: CrossHair+z3; AssocDict stub for the buffers' internal dicts in symbolic runs; payload contents are tags (never inspected by the code). Bounds: n<=4,c<=4 quick; n<=5 complete + PrintBuffer n=6, c<=6 thorough.")
